@@ -1,4 +1,5 @@
 //! vh-graph: graph-level engines (planner, executor, plan cache, buffer pool, ...).
+mod exec;
 mod plan;
 mod pool;
 mod requests;
@@ -7,6 +8,7 @@ mod synth;
 fn main() {
     let cmd = std::env::args().nth(1).unwrap_or_default();
     match cmd.as_str() {
+        "exec" => exec::main_exec(),
         "plan" => plan::main_plan(),
         "pool" => pool::main_pool(),
         "pool-stress" => pool::main_pool_stress(),
